@@ -304,3 +304,9 @@ PROPS["C15"].update(
 # bridging of equivalent nodes is what makes occupancy visible across workers (C04)
 PROPS["C04"]["modules"] = list(PROPS["C04"]["modules"]) + ["contracts.graph_clones", "contracts.update_tool"]
 PROPS["C09"]["modules"] = list(PROPS["C09"]["modules"]) + ["contracts.update_tool"]
+
+# the identifier clause of C10 / the budget clause of C03 also rest on the creation pre-step counting every earlier try
+for _pid in ("C10", "C03"):
+    if "contracts.loop_blocks" not in PROPS[_pid]["modules"]:
+        PROPS[_pid]["modules"] = list(PROPS[_pid]["modules"]) + ["contracts.loop_blocks"]
+PROPS["C16"]["modules"] = list(PROPS["C16"]["modules"]) + ["contracts.graph_clones"]
